@@ -10,6 +10,8 @@ import Tahoe.Immutable.HelperClient
        `none` (no UEB).  Output `present` | `need-new` | `need-active`.
     `presentp ACTIVE ANSWERS TOTAL` — the same with ANSWERS = `-` or `server.shnum` pairs joined by `,`
        (one per share file found).
+    `hist TOTAL ev,…` — a history of the grid (`p.srv.shnum` share placed, `l.srv.shnum` share lost, `q` a client asks the
+       helper); output `present`/`need` per query.
     `pick HASHELPER SIZE` — which uploader `Uploader.upload` picks: `literal` | `assisted` | `direct`.
     `reader CHUNK PTHEX KSHEX off:len,…` — the client-side reader (EncryptAnUploadable with CHUNKSIZE = CHUNK behind a
        RemoteEncryptedUploadable) answering a sequence of remote_read_encrypted(off, len); output hex per call (`N` = refused). -/
@@ -69,6 +71,15 @@ def handle : List String → String
         | .present _ => "present"
         | .needUpload true => "need-new"
         | .needUpload false => "need-active"
+    | _, _ => "bad-op"
+  | ["hist", tot, evs] =>
+    let parsed : Option (List GridEvent) := (evs.splitOn ",").mapM (fun e => match e.splitOn "." with
+      | ["q"] => some GridEvent.query
+      | ["p", a, b] => do pure (GridEvent.placed (← a.toNat?) (← b.toNat?))
+      | ["l", a, b] => do pure (GridEvent.lost (← a.toNat?) (← b.toNat?))
+      | _ => none)
+    match tot.toNat?, parsed with
+    | some total, some l => ",".intercalate ((answersOver total [] l).map (fun b => if b then "present" else "need"))
     | _, _ => "bad-op"
   | ["pick", h, sz] =>
     match (if h == "1" then some true else if h == "0" then some false else none), sz.toNat? with
